@@ -152,7 +152,8 @@ RULE_FILES['w1252.rules'] = _ENC_TEXT.encode('cp1252')
 RULE_FILES['bom8.rules'] = b'\xef\xbb\xbf' + _ENC_TEXT.encode('utf-8')
 RULE_FILES['cr.rules'] = _ENC_TEXT.replace('\u00e9', 'e').replace('\n', '\r')
 GEN_CSV_PATTERNS = ['UBER', 'UBER.*EATS', 'COFFEE', '*BAD', 'NETFLIX', 'COFFEE(', 'RENT[amount>100]', 'contains("UBER") and amount > 10', '[', 'UBER|COFFEE',
-                    'UBER[date:last30days]', 'COFFEE[date:last60days]', 'NETFLIX[date:last365days]']
+                    'UBER[date:last30days]', 'COFFEE[date:last60days]', 'NETFLIX[date:last365days]',
+                    'COFFEE[amount:200-1]', 'UBER[date:2025-12-31..2025-01-01]', 'NETFLIX[amount:50-5]', 'COFFEE[amount:1-200]', 'UBER[date:2025-01-01..2025-12-31]']
 # the days a long-lived process may live to see (CLOCK operation): chosen around the transaction dates so that the
 # [date:lastNdays] windows of the CSV pools open and close, plus both leap days
 CLOCK_DAYS = ['2025-01-08', '2025-02-03', '2025-02-08', '2025-03-01', '2025-03-10', '2025-04-30', '2025-06-15', '2026-01-20', '2024-02-29', '2028-02-29']
